@@ -638,3 +638,253 @@ def selftest(ctx, pid):
     if not ok:
         raise core.MachineryError("binding self-test failed: %s %s %s" % (good, bad1, bad2))
     return {"untouched_behaviour_accepted": True, "corrupted_disk_state_rejected": True, "corrupted_result_rejected": True}
+
+
+# ======================================================================================================
+# code -> spec: random executions of the real library, recorded and validated by TLC (WorkspaceTrace.tla)
+def _enc_obs(w, uni, projects):
+    obs = {}
+    for p in projects:
+        pr = W.project(w.roots[p], uni)
+        if pr["litter"]:
+            return None
+        wsl = []
+        for key, rec in sorted(pr["ws"].items(), key=lambda kv: str(kv[0])):
+            if not isinstance(key, dict) or (rec["spk"] == "ok" and not isinstance(rec["spv"], dict)) or str(rec["doc"]).startswith("?"):
+                return None
+            wsl.append({"id": dict(key), "spk": rec["spk"], "spv": dict(rec["spv"]) if rec["spk"] == "ok" else dict(key), "doc": rec["doc"],
+                        "files": sorted([n, t] for n, t in rec["files"].items())})
+        cache = []
+        if pr["cache"] is not None:
+            for i, v in pr["cache"].items():
+                if not isinstance(i, dict) or not isinstance(v, dict):
+                    return None
+                cache.append([dict(i), dict(v)])
+        inv = {v(w.stray_base): k for k, v in W.STRAY_NAME.items()}
+        if any(s_ not in inv for s_ in pr["strays"]):
+            return None
+        mem = [dict(uni.by_id[i]) for i in w.proj[p]._sp_cache if i in uni.by_id]
+        if len(mem) != len(w.proj[p]._sp_cache):
+            return None
+        obs[p] = {"ws": wsl, "cacheEx": pr["cache"] is not None, "cache": cache, "mem": mem, "strays": sorted(inv[s_] for s_ in pr["strays"])}
+    return obs
+
+
+def _random_trace(args):
+    """independent random driver (knows nothing of the spec except the op vocabulary and obvious preconditions)"""
+    seed, length, ops, spelling, keys, vals, projects, handles, base, pid = args
+    import logging
+    logging.disable(logging.CRITICAL)
+    rnd = random.Random(seed)
+    uni = W.Universe(keys=keys, vals=vals, spelling=spelling)
+    judge = JUDGES[pid]
+    w = World2(uni, projects, base=base)
+    any_sp = dict(uni.sps[0])
+    ev, verdicts = [], []
+    try:
+        for k in range(length):
+            live = sorted(w.h)
+            dead = [x for x in handles if x not in w.h]
+            dirs = {p: [uni.by_id[d] for d in job_dirs(w.roots[p]) if d in uni.by_id] for p in projects}
+            cand = []
+            for op in ops:
+                if op in ("open_sp", "open_id") and dead:
+                    cand.append(op)
+                elif op == "open_iter" and dead and any(dirs.values()):
+                    cand.append(op)
+                elif op in ("init", "readsp", "remove", "setkey", "assign", "update_sp", "docset", "clear", "reset") and live:
+                    cand += [op] * (2 if op in ("setkey", "init", "docset") else 1)
+                elif op == "writefile" and any(os.path.isdir(w.h[x].path) for x in live):
+                    cand.append(op)
+                elif op == "move" and len(projects) > 1 and live:
+                    cand.append(op)
+                elif op in ("clone", "copy") and live and dead:
+                    cand.append(op)
+                elif op in ("update_cache", "restart", "check", "repair"):
+                    cand.append(op)
+                elif op == "delete_cache" and any(os.path.exists(os.path.join(r, ".signac", "statepoint_cache.json.gz")) for r in w.roots.values()):
+                    cand.append(op)
+                elif op == "stray":
+                    cand.append(op)
+                elif op in ("corrupt", "corrupt_other", "rename_dir") and any(dirs.values()):
+                    cand.append(op)
+            op = rnd.choice(cand)
+            P = rnd.choice(projects)
+            sp = rnd.choice(uni.sps)
+            if op == "open_sp":
+                a = (rnd.choice(dead), P, sp)
+            elif op == "open_id":
+                pool = dirs[P] * 3 + [sp]
+                a = (rnd.choice(dead), P, rnd.choice(pool))
+            elif op == "open_iter":
+                P = rnd.choice([p for p in projects if dirs[p]])
+                a = (rnd.choice(dead), P, rnd.choice(dirs[P]))
+            elif op in ("init", "readsp", "remove", "clear", "reset"):
+                a = (rnd.choice(live),)
+            elif op == "setkey":
+                a = (rnd.choice(live), rnd.choice(keys), rnd.choice(list(vals) + [W.ABSENT]))
+            elif op == "assign":
+                a = (rnd.choice(live), sp)
+            elif op == "update_sp":
+                a = (rnd.choice(live), rnd.choice(keys), rnd.choice(vals), rnd.random() < 0.5)
+            elif op == "docset":
+                a = (rnd.choice(live), rnd.choice(["d1", "d2"]))
+            elif op == "writefile":
+                a = (rnd.choice([x for x in live if os.path.isdir(w.h[x].path)]), rnd.choice(["f1", "f2"]), rnd.choice(["c1", "c2"]))
+            elif op == "move":
+                x = rnd.choice(live)
+                others = [q for q in projects if q != os.path.basename(w.h[x].project.path)]
+                grp = [y for y in live if y != x and w.root.get(y) == w.root.get(x)]
+                if not others or grp:
+                    continue
+                a = (x, rnd.choice(others))
+            elif op == "clone":
+                a = (rnd.choice(live), P, rnd.choice(dead))
+            elif op == "copy":
+                a = (rnd.choice(live), rnd.choice(dead))
+            elif op in ("update_cache", "check", "repair"):
+                a = (P,)
+            elif op == "delete_cache":
+                P = rnd.choice([p for p, r in w.roots.items() if os.path.exists(os.path.join(r, ".signac", "statepoint_cache.json.gz"))])
+                a = (P,)
+            elif op == "restart":
+                a = ()
+            elif op == "stray":
+                kinds = [k_ for k_ in W.STRAY_NAME if not os.path.exists(os.path.join(w.roots[P], "workspace", W.STRAY_NAME[k_](w.stray_base)))]
+                if not kinds:
+                    continue
+                a = (P, rnd.choice(kinds))
+            elif op == "corrupt":
+                P = rnd.choice([p for p in projects if dirs[p]])
+                i = rnd.choice(dirs[P])
+                kind = rnd.choice(["missing", "garbage"])
+                cur = read_sp(w.roots[P], uni.id[i])[0]
+                if cur == "missing" or (cur == "garbage" and kind == "garbage"):
+                    continue
+                a = (P, i, kind)
+            elif op == "corrupt_other":
+                P = rnd.choice([p for p in projects if dirs[p]])
+                i = rnd.choice(dirs[P])
+                k_, v_ = read_sp(w.roots[P], uni.id[i])
+                if sp == i or (k_ == "ok" and uni.abstract(v_) == sp):
+                    continue
+                a = (P, i, sp)
+            elif op == "rename_dir":
+                P = rnd.choice([p for p in projects if dirs[p]])
+                i = rnd.choice(dirs[P])
+                if sp in dirs[P]:
+                    continue
+                a = (P, i, sp)
+            last = {"op": op, "args": a}
+            pre = core.snapshot(w.base)
+            w.pre_handles = {x: {"id": j.id, "proj": os.path.basename(j.project.path)} for x, j in w.h.items()}
+            w.pre_stat = {key: _stat(os.path.join(w.base, key)) for key in pre if key.endswith(W.SP_FILE)}
+            w.is_last = False
+            res, val = w.do(last)
+            post = core.snapshot(w.base)
+            obs = _enc_obs(w, uni, projects)
+            hid, hlive, hproj = {}, {}, {}
+            for x in handles:
+                j = w.h.get(x)
+                hlive[x] = j is not None
+                hid[x] = dict(uni.by_id.get(j.id, uni.sps[0])) if j is not None else any_sp
+                hproj[x] = os.path.basename(j.project.path) if j is not None else projects[0]
+                if j is not None and j.id not in uni.by_id:
+                    obs = None
+            enc_val = [dict(v) if isinstance(v, dict) else None for v in val]
+            if obs is None or None in enc_val:
+                verdicts.append((k, "outside-universe", "the real execution left the value universe (temp files, foreign state point or id) after %s %s" % (op, a)))
+                break
+            ev.append({"op": op, "args": W._plain(a), "res": res, "val": enc_val, "obs": obs, "hid": hid, "hlive": hlive, "hproj": hproj})
+            # the property's post-conditions on the real execution (model-free judges only: no spec state here)
+            if pid in ("C04", "C08"):
+                with observer_isolation():
+                    for sig, what in JUDGES[pid](w, {"last": {"op": op, "args": a}, "ws": {}, "tainted": ()}, pre, post, res, val):
+                        verdicts.append((k, sig, what))
+        return {"ev": ev}, verdicts
+    finally:
+        w.close()
+
+
+def run_recorded(ctx, pid, name, n, length, ops, spelling="wide", keys=("a", "b", "c"), vals=("i0", "i1", "i2"), projects=("P", "Q"), handles=("h1", "h2", "h3")):
+    """n random real executions of `length` operations, validated in one TLC run."""
+    import zlib
+    uni = W.Universe(keys=keys, vals=vals, spelling=spelling)
+    seeds = [(ctx.seed * 1000003 + zlib.crc32(name.encode()) + i, length, ops, spelling, keys, vals, projects, handles, ctx.work, pid) for i in range(n)]
+    outs = core.pmap(_random_trace, seeds, procs=16, chunks=1)
+    d = os.path.join(ctx.work, "trace_" + name)
+    os.makedirs(d, exist_ok=True)
+    shutil.copy(os.path.join(tlc.SPEC_ROOT, "workspace", "Workspace.tla"), d)
+    shutil.copy(os.path.join(tlc.SPEC_ROOT, "workspace", "WorkspaceTrace.tla"), d)
+    order = "<<" + ", ".join(uni.tla_sp(s) for s in uni.order) + ">>"
+    with open(os.path.join(d, "TR.tla"), "w") as f:
+        f.write("---- MODULE TR ----\nEXTENDS WorkspaceTrace\nIdOrderDef == %s\nOpsDef == {}\nInitJobsDef == {}\nInitCacheDef == {FALSE}\n====\n" % order)
+    fn = os.path.join(d, "traces.ndjson")
+    # binding self-test: copies of the first trace with one recorded field corrupted / one event dropped must be rejected there
+    probes = []
+    base_tr = next((tr for tr, _ in outs if len(tr["ev"]) >= 6), None)
+    if base_tr is not None:
+        m = len(base_tr["ev"]) // 2
+        t1 = copy.deepcopy(base_tr)
+        t1["ev"][m]["res"] = "ok" if t1["ev"][m]["res"] != "ok" else "KeyError"
+        probes = [(t1, m, "result")]
+        cands = [i for i, e in enumerate(base_tr["ev"]) if e["op"] in ("init", "setkey", "assign", "docset", "remove", "reset", "move", "clone", "corrupt", "rename_dir")
+                 and e["res"] == "ok" and i > 0 and e["obs"] != base_tr["ev"][i - 1]["obs"]]
+        for k2 in cands[:4]:
+            t2 = copy.deepcopy(base_tr)
+            del t2["ev"][k2]
+            probes.append((t2, k2, "drop"))
+    with open(fn, "w") as f:
+        for tr, _ in outs:
+            f.write(json.dumps(tr) + "\n")
+        for tr, _, _ in probes:
+            f.write(json.dumps(tr) + "\n")
+    consts = {"Projects": tlc.lit(set(projects)), "Keys": tlc.lit(set(keys)), "Vals": tlc.lit(set(vals)), "Handles": tlc.lit(set(handles)),
+              "DocVals": tlc.lit({"d1", "d2"}), "FileNames": tlc.lit({"f1", "f2"}), "FVals": tlc.lit({"c1", "c2"}), "MaxDepth": 10**6,
+              "IdOrder": "<- IdOrderDef", "Ops": "<- OpsDef", "InitJobs": "<- InitJobsDef", "InitCache": "<- InitCacheDef"}
+    cfg = tlc.cfg(consts, init="TrInit", next="TrNext", constraints=["Track"], postcondition="Post",
+                  invariants=["TraceHashInvX", "TraceCheckX"] if not set(ops) & {"corrupt", "corrupt_other", "rename_dir"} else [])
+    r = tlc.run(os.path.join(d, "TR.tla"), cfg_text=cfg, workdir=d, workers=1, env={"TRACE_FILE": fn}, coverage=False, timeout=3600)
+    ctx.add_tlc("%s: %s recorded executions validated" % (pid, name), r)
+    if r.violation:
+        tr_ = [s_ for _, s_ in r.violation["trace"]]
+        script_ = [dict(op=s_["last"]["op"], args=W._plain(s_["last"]["args"]), res=s_["last"]["res"]) for s_ in tr_[1:]]
+        ctx.violation("recorded:" + r.violation["name"], "a recorded real execution, accepted by the model step by step, reaches a state violating %s" % r.violation["name"],
+                      {"config": name, "spelling": spelling, "keys": list(keys), "vals": list(vals), "projects": list(projects), "script": script_, "step": len(script_) - 1})
+        return 0
+    import re as _re
+    rejected = {}
+    kinds = {}
+    for m in _re.finditer(r'<<\s*"REJECTED",\s*(\d+),\s*"matched",\s*(\d+),\s*"of",\s*(\d+),\s*"kind",\s*"(\w+)"\s*>>', r.stdout):
+        rejected[int(m.group(1))] = int(m.group(2))
+        kinds[int(m.group(1))] = m.group(4)
+    caught = {"result": 0, "drop": 0}
+    for j, (tr, at, kind) in enumerate(probes):
+        idx = len(outs) + 1 + j
+        if idx in rejected and rejected[idx] <= at:
+            caught[kind] += 1
+        rejected.pop(idx, None)
+    if probes and (caught["result"] == 0 or (any(k == "drop" for _, _, k in probes) and caught["drop"] == 0)):
+        raise core.MachineryError("binding self-test failed: corrupted copies of a recorded trace were accepted (%s)" % caught)
+    ctx.cov.setdefault("trace_binding_selftest", []).append({"name": name, "corrupted_result_rejected": caught["result"], "dropped_event_rejected": caught["drop"],
+                                                             "probes": len(probes)})
+    nev = 0
+    for i, (tr, verdicts) in enumerate(outs, 1):
+        nev += len(tr["ev"])
+        script = [dict(op=e["op"], args=e["args"], res=e["res"]) for e in tr["ev"]]
+        ctx.count(("recorded", name, len(script), script[-1]["op"] if script else ""), n=len(script), traces=1)
+        for (k, sig, what) in verdicts:
+            ctx.violation(sig, what, {"config": name, "spelling": spelling, "keys": list(keys), "vals": list(vals), "projects": list(projects), "script": script[:k + 1], "step": k})
+        if i in rejected:
+            m = rejected[i]
+            e = tr["ev"][m] if m < len(tr["ev"]) else None
+            if pid == "C03" and kinds.get(i) == "disk":
+                ctx.violation("diverges-from-model:%s:recorded" % (e and e["op"]), "recorded real execution: after %s %s the files on disk / cache file differ from the model's state" % (e and e["op"], e and e["args"]),
+                              {"config": name, "spelling": spelling, "keys": list(keys), "vals": list(vals), "projects": list(projects), "script": script[:m + 1], "step": m})
+                continue
+            ctx.spec_drift("[%s] recorded execution %s#%d: the specification explains %d of %d events; next event %s %s -> %s is not a step of the model; script=%s" % (
+                kinds.get(i), name, i, m, len(tr["ev"]), e and e["op"], e and e["args"], e and e["res"], json.dumps([[x["op"], x["args"], x["res"]] for x in script[:m + 1]])))
+    ctx.cov.setdefault("recorded_executions", []).append({"name": name, "traces": len(outs), "events": nev, "accepted": len(outs) - len(rejected), "rejected": len(rejected)})
+    if outs and outs[0][0]["ev"]:
+        ctx.sample({"kind": "recorded real execution (validated by TLC)", "first_events": [[e["op"], e["args"], e["res"]] for e in outs[0][0]["ev"][:8]]})
+    return len(rejected)
